@@ -252,7 +252,8 @@ func c15Gen(r *rand.Rand, n int, tier string) []string {
 	// plain and YAML-significant texts that must survive; then the texts of the open finding (go-yaml)
 	texts := []string{"", "a", "plain text", "with: colon", "#hash", "a #b", "quote\"s", "'single'", "ünï©ødé ✓", " lead", "trail ", "true", "yes", "No",
 		"123", "1e3", "1.5", "0x10", "2001-01-01", "{a: b}", "[1,2]", "back\\slash", "*star", "&amp", "!bang", "%pct", "@at", "`tick`", "|", ">", "?", "a: b", "-x", "a - b",
-		"- dash", "-", "null", "~", "a\tb", "\t", "a\rb", "line1\nline2", "? q", ".inf", ".NaN"}
+		"- dash", "-", "null", "~", "a\tb", "\t", "a\rb", "line1\nline2", "? q", ".inf", ".NaN",
+		"  if x:\n    y", "one\ntwo  ", " lead\nx", "a\n\nb", "x\n", "\nx", "a: b\n# c", "tab\there\nnext"}
 	plainTexts := 34
 	vals := []float64{0, 1, -1, 0.5, 2.25, 1e6, 2e7, 123456789, 1e15, 1e21, 1e-7, 5e-324, math.MaxFloat64, math.Copysign(0, -1), math.Inf(1), math.Inf(-1)}
 	types := []string{"description", "value", "level", "tag", "nodeID", "note"}
